@@ -596,6 +596,23 @@ pub fn cmd_sched(m: &HashMap<String, String>) -> i32 {
         .set("ops", J::Int(ops as i64))
         .set("decisions", J::Int(decisions as i64))
         .set("reference_images_computed", J::u(w.refs.computed))
+        .set("ref_images", {
+            // every isolated evaluation this process made: operation key -> hash of its outcome. The driver
+            // compares them across processes (different histories, different first uses, different CPU masks):
+            // the same call must give the same bits in every process
+            let mut o = J::obj();
+            let mut keys: Vec<&String> = w.refs.map.keys().collect();
+            keys.sort();
+            for k in keys {
+                let h = match &w.refs.map[k] {
+                    Outcome::Image(i) => format!("{:016x}", hash_bytes(i)),
+                    Outcome::LibPanic(_) => "panic".to_string(),
+                    Outcome::HarnessDied => "died".to_string(),
+                };
+                o.put(k, J::s(&h));
+            }
+            o
+        })
         .set("digest", J::s(&format!("{:016x}", dg.finish())))
         .set("trace_digest", J::s(&format!("{:016x}", tdg.finish())))
         .set("counters", counters.to_json())
